@@ -1,0 +1,51 @@
+//go:build verif
+
+// Verification hook (build tag "verif"): link-up events fed by the harness instead of netlink.
+package ifmon
+
+import (
+	"context"
+	"net"
+	"sync"
+)
+
+var (
+	mu    sync.Mutex
+	feeds = map[int]chan bool{}
+)
+
+// Feed returns the channel whose values are forwarded as link-up events of the interface.
+func Feed(iface *net.Interface) chan bool {
+	mu.Lock()
+	defer mu.Unlock()
+	c := feeds[iface.Index]
+	if c == nil {
+		c = make(chan bool, 64)
+		feeds[iface.Index] = c
+	}
+	return c
+}
+
+// ResetFeed forgets the feed of the interface.
+func ResetFeed(iface *net.Interface) {
+	mu.Lock()
+	delete(feeds, iface.Index)
+	mu.Unlock()
+}
+
+// MonitorChanges forwards harness-supplied link-up events.
+func MonitorChanges(ctx context.Context, iface *net.Interface, event chan<- bool) error {
+	c := Feed(iface)
+	for {
+		select {
+		case <-c:
+			select {
+			case event <- true:
+			case <-ctx.Done():
+				return nil
+			}
+		case <-ctx.Done():
+			return nil
+		}
+	}
+}
